@@ -6,7 +6,8 @@
           with / without 'fail' (16 subsets of {collect, fail, print, stop} + quiet)
  scope B  named-paths groups of 2..3 members drawn from {never fails, fails at line 1, fails at line 3, fail_and_stop at 2, errors under a 'fail'
           policy} (all ordered pairs, 20 triples; thorough all triples) run with collect_paths and collect_by_line:
-          results_manager.is_valid(name) and the run manifest's all_valid == conjunction of the members' verdicts
+          results_manager.is_valid(name) and the run manifest's all_valid == conjunction of the members' verdicts; the same two-member groups over a
+          zero-byte file and a header-only file (there the members' own verdicts are taken as observed, only the conjunction is checked)
  clause   is_valid starts True and is False at the end iff a fail fired on a scanned line (or an error was handled under 'fail'); the per-line
           verdict seen by valid()/failed() is True up to the firing line and False from it on (never back to True)
 """
@@ -40,6 +41,10 @@ def main():
     for g in groups:
         for method in ("collect_paths", "collect_by_line"):
             items.append(("B", g, method))
+    for g in (("ok", "none"), ("ok", "f1")):
+        for method in ("collect_paths", "fast_forward_paths", "collect_by_line", "fast_forward_by_line"):
+            for file in ("zero_bytes", "header_only"):
+                items.append(("B", g, method, file))
     b.exhaustive = b.thorough()
 
     def work(b, item):
@@ -92,10 +97,13 @@ def main():
             b.fail("error_invalidates_iff_policy_has_fail", key, "is_valid after the run", p.is_valid, "fail" not in pol)
 
     def work_b(b, item):
-        _, g, method = item
+        g, method = item[1], item[2]
+        file = item[3] if len(item) > 3 else "five_records"
         key = {"group": list(g), "method": method}
+        if file != "five_records":
+            key["file"] = file
         b.case(key)
-        fn = os.path.abspath(mlib.write_rows("g.csv", ROWS))
+        fn = os.path.abspath(mlib.write_rows("g.csv", {"five_records": ROWS, "zero_bytes": [], "header_only": ROWS[:1]}[file]))
         with b.quiet():
             paths = mlib.new_paths()
             paths.file_manager.add_named_file(name="g", path=fn)
@@ -104,11 +112,14 @@ def main():
         if exc is not None:
             b.fail("run_returns", key, f"{type(exc).__name__}: {exc}")
             return
-        want = all(verdict[m] for m in g)
         results = paths.results_manager.get_named_results("grp")
         got_members = [r.csvpath.is_valid for r in results]
-        if got_members != [verdict[m] for m in g]:
-            b.fail("member_verdicts", key, "members' is_valid", got_members, [verdict[m] for m in g])
+        if file == "five_records":
+            want = all(verdict[m] for m in g)
+            if got_members != [verdict[m] for m in g]:
+                b.fail("member_verdicts", key, "members' is_valid", got_members, [verdict[m] for m in g])
+        else:
+            want = all(got_members)
         with b.quiet():
             rmv = paths.results_manager.is_valid("grp")
         if rmv != want:
